@@ -372,6 +372,17 @@ def checkUnique (code : String) : List String → List String → R Unit
   | _, [] => .ok ()
   | seen, n :: ns => if seen.contains n then .error code else checkUnique code (n :: seen) ns
 
+/-- `len(serverIndexByName)` after the loop of `Manager` in which EVERY server stores its index under its
+    name (`serverIndexByName[name] = i`): the number of distinct names. -/
+def mapSize : List String → Nat
+  | [] => 0
+  | n :: ns => if ns.contains n then mapSize ns else mapSize ns + 1
+
+/-- capacity of the `fromServers` bit set of a route (`bitset.NewBitSet(uint(len(serverIndexByName)))`);
+    `SourceServerCriterion.Meet` tests bit `requestInfo.ServerIndex` = the position of the server in `servers`,
+    and `bitset.IsSet` panics when the index is not below the capacity. -/
+def Config.bitsetCapacity (c : Config) : Nat := mapSize (c.servers.map (·.name))
+
 -- ---------------------------------------------------------------- router (router/router.go, route.go)
 
 def defaultClientOK (name : String) (names : List String) : Bool :=
